@@ -109,7 +109,13 @@ class IncludeExcludeTree():
                     continue
                 elif key in self.subtrees:
                     if isinstance(value, dict):
-                        result[key] = self.subtrees[key].get(value)
+                        subtree = self.subtrees[key]
+                        sub = subtree.get(value)
+                        # if nothing was selected from a subdictionary
+                        # that is excluded by default, the key itself
+                        # carries no selected information
+                        if sub or subtree.include:
+                            result[key] = sub
                     elif self.subtrees[key].include:
                         # not a dictionary: nothing can be excluded
                         # from it, and it is included by default
@@ -124,7 +130,13 @@ class IncludeExcludeTree():
                     result[key] = value
                 elif key in self.subtrees:
                     if isinstance(value, dict):
-                        result[key] = self.subtrees[key].get(value)
+                        subtree = self.subtrees[key]
+                        sub = subtree.get(value)
+                        # if nothing was selected from a subdictionary
+                        # that is excluded by default, the key itself
+                        # carries no selected information
+                        if sub or subtree.include:
+                            result[key] = sub
                     elif self.subtrees[key].include:
                         # not a dictionary, but the subtree includes
                         # everything that is not explicitly excluded
